@@ -609,6 +609,9 @@ def units():
     from contracts import ckernels
     for fn in ("evaluate_se_kernel", "evaluate_se_kernel_antisym", "evaluate_se_kernel_spin", "evaluate_se_kernel_spin_v2"):
         u.append(("c-kernel/" + fn, ckernels.unit_se_kernel(fn)))
+    # same-spin libxc recombination: derivative consistency needs the energy to be built from the density handed in — frame and layout obligations (shared with C07)
+    from contracts import c07
+    u.append(("libxc-ss", c07.unit_libxc_ss))
     return u
 
 
